@@ -8,8 +8,10 @@ package main
 import (
 	"encoding/json"
 	"fmt"
+	"go/format"
 	"os"
 	"sort"
+	"strings"
 
 	"pdfverif/internal/core"
 	"pdfverif/internal/props"
@@ -58,6 +60,33 @@ func main() {
 		fmt.Printf("replaying property %s (recorded: rule=%v key=%v)\n%v\n", prop, rec["rule"], rec["key"], rec["detail"])
 		os.Setenv("PDFVERIF_ONLY_RULE", fmt.Sprint(rec["rule"]))
 		os.Exit(props.Run(prop, "quick"))
+	case "inline":
+		// debugging aid: pdfverif inline <pattern> [<func key suffix>] prints
+		// the normalised (helper-inlined) form of functions, or statistics
+		if len(os.Args) < 3 {
+			usage()
+		}
+		prog, err := core.Load(core.RepoDir(), nil, os.Args[2])
+		if err != nil {
+			fmt.Println(err)
+			os.Exit(2)
+		}
+		total, inl := 0, 0
+		for _, pkg := range prog.RepoPkgs() {
+			for _, fn := range prog.Funcs(pkg) {
+				total++
+				in := fn.Inlined()
+				in.Graph()
+				if in != fn {
+					inl++
+				}
+				if len(os.Args) > 3 && strings.HasSuffix(fn.Key, os.Args[3]) {
+					format.Node(os.Stdout, prog.Fset, in.Decl)
+					fmt.Println()
+				}
+			}
+		}
+		fmt.Printf("%d functions, %d with inlined calls\n", total, inl)
 	default:
 		usage()
 	}
